@@ -100,6 +100,7 @@ def physical(draw, nrev, hist):
             "split": draw(st.booleans()), "pad_free": draw(st.booleans()),
             "w": draw(st.sampled_from([[1, 2, 1], [1, 3, 2], [1, 4, 2], [0, 2, 0], [2, 4, 2], [1, 2, 0]])),
             "index_default": draw(st.booleans()), "flate": draw(st.booleans()), "png_up": draw(st.booleans()),
+            "index_order": draw(st.sampled_from([None, None, "reversed", "rotated"])),
             "png_rows": draw(st.one_of(st.none(), st.lists(st.integers(0, 4), min_size=1, max_size=5))),
             "png_predictor": draw(st.sampled_from([12, 12, 10, 11, 13, 14, 15])),
             "objstm_flate": draw(st.booleans()),
